@@ -456,7 +456,22 @@ pub fn sparse_tie_triple(n: u32, es: u32) -> BoxedStrategy<(u64, u64, u64)> {
         let ptop = Dy::from_u128(false, mh, log_h);
         let below = r3 & 1 != 0; // product negative: result v - 2^e (c = v + p_top)
         let c = if below { v.add(&ptop) } else { v.sub(&ptop) };
-        let ea = ((r3 >> 40) % 9) as i32 - 4 - (wa as i32) / 2;
+        // split the product's exponent between the factors by construction: every scale of `a` at which
+        // both factors still have the fraction bits their significands need (a deep lone bit forces both
+        // factors well below 1; putting `a` near 1 would leave `b` without fraction bits — seeded
+        // C13-r3-m3 needed 4097*2^-27 x 16773121*2^-35)
+        let wb = 64 - b_sig.leading_zeros();
+        let total = e + (wa as i32 - 1) + (wb as i32 - 1);
+        let valid: Vec<i32> = (-ms..=ms)
+            .filter(|&sa| {
+                let sb = total - sa;
+                sb.abs() <= ms && frac_bits_at(n, es, sa) >= wa as i32 - 1 && frac_bits_at(n, es, sb) >= wb as i32 - 1
+            })
+            .collect();
+        if valid.is_empty() {
+            return fb;
+        }
+        let ea = valid[((r3 >> 40) % valid.len() as u64) as usize] - (wa as i32 - 1);
         let eb = e - ea;
         let (da, db) = (Dy::new(below, a_sig, ea), Dy::new(false, b_sig, eb));
         match (representable(n, es, &da), representable(n, es, &db), representable(n, es, &c)) {
